@@ -126,7 +126,30 @@ def gen(draw):
             steps.append(['flood', draw(st.sampled_from([3, 50, 50, 10050]))])
         else:
             steps.append([k])
-    return {'pool': pool, 'steps': steps}
+    # constructed histories (not left to chance): the same call before and after the event that could change it
+    shape = draw(st.sampled_from(['free', 'free', 'free', 'greg-sandwich', 'toggle-sandwich', 'flood-sandwich']))
+    if shape != 'free':
+        if shape == 'greg-sandwich':
+            inner = ['slotsc', [['b', ['i', draw(st.integers(0, 9))]]]]
+            pool[0] = {'kind': 'slotpath', 'recipe': {'target': ['slotsc', [['a', inner], ['c', ['s', 'x']]]],
+                                                      'path': draw(st.sampled_from(['a.b', 'a', 'c', 'a.zz']))}}
+            core = [[draw(st.sampled_from(['gcall', 'gsame'])), 0], ['greg'], [draw(st.sampled_from(['gcall', 'gsame'])), 0]]
+        elif shape == 'toggle-sandwich':
+            pool[0] = {'kind': 'c14', 'recipe': c14.gen_read(draw)}
+            core = [['toggle'], [draw(st.sampled_from(['call', 'same', 'gcall'])), 0], ['toggle'],
+                    [draw(st.sampled_from(['call', 'same', 'gcall'])), 0]]
+            if draw(st.booleans()):
+                core = core[1:] + [['toggle'], core[1]]
+        else:
+            core = [[draw(st.sampled_from(['call', 'same', 'gcall'])), 0], ['flood', 10050], [draw(st.sampled_from(['call', 'same', 'gcall'])), 0]]
+        extra = steps[:draw(st.integers(0, 3))]
+        out = []
+        for c_ in core:
+            out.append(c_)
+            if extra and draw(st.booleans()):
+                out.append(extra.pop())
+        steps = out
+    return {'pool': pool, 'steps': steps, 'shape': shape}
 
 
 # ---------------------------------------------------------------------------
@@ -158,6 +181,7 @@ def reachable_ids(v):
 
 def check(recipe, ctx):
     pool = recipe['pool']
+    ctx.label('shape-' + recipe.get('shape', 'free'))
     srv = server()
     star0 = glom.core.PATH_STAR
     star = True
@@ -273,5 +297,5 @@ def check(recipe, ctx):
 
 SUBS = [
     Sub('history', check, gen=gen, quick=1600, thorough=4000,
-        floors={'toggle': 0.2, 'flood-small': 0.2, 'flood-big': 0.05, 'glommer-register': 0.2}),
+        floors={'toggle': 0.2, 'flood-small': 0.15, 'flood-big': 0.05, 'glommer-register': 0.2, 'shape-greg-sandwich': 0.08, 'shape-toggle-sandwich': 0.08}),
 ]
